@@ -116,6 +116,7 @@ class C14(Property):
         ("antismash/common/hmmscan_refinement.py", "HMMResult.from_json"),
         ("antismash/common/hmmscan_refinement.py", "HMMResult.__eq__"),
         (DI, "CDSResult.to_json"), (DI, "CDSResult.from_json"), (DI, "NRPSPKSDomains.add_to_record"), (DI, "generate_domain_features"),
+        ("antismash/common/secmet/features/cdscollection.py", "_SectionedCDSTuple.__iter__"),
         ("antismash/common/secmet/features/module.py", "ModuleType"),
         ("antismash/common/secmet/features/module.py", "Module.__init__"),
         ("antismash/common/secmet/features/module.py", "Module.to_biopython"),
@@ -133,7 +134,8 @@ class C14(Property):
             "HMMResult trees (depth <= 3, overlapping / touching / disjoint internal hits) through the constructor, "
             "detailed_names, to_json/from_json and Component; a strided enumeration of all ordered pairs of strings "
             "of length <= 2 as two-gene chains on both strands through generate_domains; chains with domain-less "
-            "genes, docking-only genes, region borders and strand changes at the cuts; kind `feature`: 1-3 genes "
+            "genes, docking-only genes, region borders and strand changes at the cuts; a third of the single-region "
+            "chains again on a circular record whose region crosses the origin at one of the gene borders (both strands); kind `feature`: 1-3 genes "
             "through generate_domains + add_to_record, every aSModule feature through to_biopython/from_biopython, "
             "incl. tandem duplicates (2-3 adjacent same-strand genes with identical hits) on both strands. "
             "non-trivial = at least two modules or one complete module (build/replay), a merge that happened or "
@@ -152,6 +154,8 @@ class C14(Property):
         "the DNA locations, translations and the DOMAIN_TYPE_MAPPING renaming of `.domain` are exercised only",
         "HMMResult equality/hash as dict key is modelled by equality of (label, subtype chain, start, end); the harness "
         "uses one fixed e-value/bitscore",
+        "the order of `region.cds_children` for an origin-crossing region (pre-origin genes first) is secmet's; the model "
+        "states it as `regionGenes` and every origin-crossing chain case compares the real order with it",
         "in kind `chain` find_domains / find_subtypes / find_ab_motifs / annotate_domains are patched out "
         "(no HMMER in the sandbox); the loop itself, build and combine are the real code",
     ]
@@ -349,7 +353,30 @@ class C14(Property):
         a, b = syms[:cut], syms[cut:]
         return self.place(rng, a, scramble=False), self.place(rng, b, scramble=False)
 
+    @staticmethod
+    def over_origin(case: Dict[str, Any], p: int) -> Dict[str, Any]:
+        """the same genes (given in the region's genome order) on a circular record whose single region crosses the
+           origin after the first len-p genes: those sit before the origin (high coordinates), the last p after it;
+           the case then lists the genes in RECORD order (ascending start), as the model expects"""
+        genes = [dict(g, region=0) for g in case["genes"]]
+        n, width = len(genes), 1000
+        length = (n + 1) * width
+        pre, post = genes[:n - p], genes[n - p:]
+        for i, g in enumerate(post):
+            g["start"] = i * width + 100
+        for i, g in enumerate(pre):
+            g["start"] = (p + 1 + i) * width + 100       # slot p stays free: the region does not cover the whole circle
+        return {"kind": "chain", "genes": post + pre, "cross": (p + 1) * width, "length": length}
+
     def cases(self, rng: random.Random, tier: str, deep: bool) -> Iterator[Dict[str, Any]]:
+        for case in self._cases(rng, tier, deep):
+            yield case
+            # every third chain also on a circular record with the origin at one of its gene borders
+            if case["kind"] == "chain" and len(case["genes"]) >= 2 and rng.random() < 0.34 \
+                    and len({g["region"] for g in case["genes"]}) == 1:
+                yield self.over_origin(case, rng.randrange(1, len(case["genes"])))
+
+    def _cases(self, rng: random.Random, tier: str, deep: bool) -> Iterator[Dict[str, Any]]:
         mi = _mi()
         # every label of the alphabet (+ unknown ones) through classify and the predicates
         for l in self.alphabet() + ["bad-domain-name", "PKS", "PKS_unknown", ""]:
@@ -720,22 +747,35 @@ class C14(Property):
         from antismash.detection.nrps_pks_domains import domain_identification as di
         genes = case["genes"]
         width = 1000
-        record = DummyRecord(seq="A" * (width * (len(genes) + 1)))
         cdses = []
-        for i, g in enumerate(genes):
-            cds = DummyCDS(locus_tag=g["name"], start=i * width + 100, end=i * width + 700, strand=g["strand"])
-            record.add_cds_feature(cds)
-            cdses.append(cds)
-        # contiguous runs of equal region id form one region each
-        i = 0
-        while i < len(genes):
-            j = i
-            while j + 1 < len(genes) and genes[j + 1]["region"] == genes[i]["region"]:
-                j += 1
-            sub = DummySubRegion(start=i * width, end=(j + 1) * width)
+        if case.get("cross") is not None:
+            # circular record, ONE region that crosses the origin: genes are given in record order with their
+            # "start"; the region begins at case["cross"] and runs over the origin up to the free slot
+            length = case["length"]
+            record = DummyRecord(seq="A" * length, circular=True)
+            for g in genes:
+                cds = DummyCDS(locus_tag=g["name"], start=g["start"], end=g["start"] + 600, strand=g["strand"])
+                record.add_cds_feature(cds)
+            sub = DummySubRegion(start=case["cross"], end=case["cross"] - width, record_length=length)
             record.add_subregion(sub)
             record.add_region(DummyRegion(candidate_clusters=[], subregions=[sub]))
-            i = j + 1
+            cdses = list(record.get_regions()[0].cds_children)
+        else:
+            record = DummyRecord(seq="A" * (width * (len(genes) + 1)))
+            for i, g in enumerate(genes):
+                cds = DummyCDS(locus_tag=g["name"], start=i * width + 100, end=i * width + 700, strand=g["strand"])
+                record.add_cds_feature(cds)
+                cdses.append(cds)
+            # contiguous runs of equal region id form one region each
+            i = 0
+            while i < len(genes):
+                j = i
+                while j + 1 < len(genes) and genes[j + 1]["region"] == genes[i]["region"]:
+                    j += 1
+                sub = DummySubRegion(start=i * width, end=(j + 1) * width)
+                record.add_subregion(sub)
+                record.add_region(DummyRegion(candidate_clusters=[], subregions=[sub]))
+                i = j + 1
         domains = {g["name"]: [make_domain(d) for d in g["domains"]] for g in genes if g["domains"]}
         motifs = {g["name"]: [make_domain(["NRPS-motif", [], 3, 9])] for g in genes if g.get("motifs")}
         with patch.object(di, "get_fasta_from_features", return_value=""), \
@@ -761,7 +801,7 @@ class C14(Property):
                 cds_reload = err_kind(exc)
             out.append({"name": cds.get_name(), "modules": [mod_json(m) for m in res.modules],
                         "cds_reload": cds_reload})
-        return {"genes": out}
+        return {"genes": out, "order": [cds.get_name() for cds in cdses]}
 
     # ------------------------------------------------------------------ driver protocol
     def driver_line(self, case: Dict[str, Any], obs: Dict[str, Any]) -> Optional[Dict[str, Any]]:
@@ -788,6 +828,8 @@ class C14(Property):
         elif kind == "chain":
             line.update(genes=case["genes"],
                         impl_genes=[{"name": g["name"], "modules": spec_view(g["modules"])} for g in obs.get("genes", [])])
+            if case.get("cross") is not None:
+                line["cross"] = case["cross"]
         return line
 
     # ------------------------------------------------------------------ judge
@@ -952,6 +994,11 @@ class C14(Property):
             corr = (len(og) == len(mg) and all(a["name"] == b["name"] and self._same_modules(a["modules"], b["modules"])
                                                for a, b in zip(og, mg)))
             crossing = 0
+            if obs.get("order") != spec["order"]:
+                corr = False
+                detail = f"iteration order of the region's genes: implementation {obs.get('order')} model {spec['order']}"
+            if case.get("cross") is not None:
+                tags.append("origin-crossing")
             if not spec["line"]:
                 problems.append("assembly line: a reported module is not a contiguous block of the genes' domains "
                                 "read in transcription order (upstream gene's trailing end + downstream gene's "
